@@ -3,12 +3,17 @@
 (* exchange must be a step MockExchange allows.                              *)
 (*   {"a":"Reset","fee":..,"lat":..,"cfg":{bal,open},"post":{bal,open,trades,notif}}   *)
 (*        a fresh exchange built from the configuration `cfg`                *)
-(*   {"a":"open"|"snapshot"|"balances"|"trades", t, side, p, q, instr, kind, since,     *)
-(*    "out":"ok"|"rej"|"query", "why", "id", "filled", "rt",                 *)
+(*   {"a":"open"|"snapshot"|"balances"|"orders"|"trades"|"cancel"|"kill",    *)
+(*    t, side, p, q, instr, kind, since,                                     *)
+(*    "out":"ok"|"rej"|"query"|"offline"|"killed", "why", "id", "filled", "rt", "echo",  *)
 (*    "res":{bal,open,trades}, "post":{bal,open,trades,notif}}               *)
 (*        one request, the answer, the projected ledger after it             *)
 (*        (`rt` = the exchange time the response of an accepted order       *)
-(*        carries, -1 otherwise)                                             *)
+(*        carries, -1 otherwise; `echo` = 1 iff an open / cancel response   *)
+(*        carries the request's own key, side, price, quantity, kind;        *)
+(*        "kill": the harness ended the exchange task - afterwards the       *)
+(*        ledger cannot be observed any more (`post` repeats the last one),  *)
+(*        only that every call answers "offline" and nothing is announced)   *)
 (*   "out":"lost" (with "drop" > 0): an open-order request whose requester   *)
 (*        stopped waiting before the exchange handled it.  The answer is not  *)
 (*        observable, but it is still an OpenOrder: whether it is accepted is *)
@@ -38,6 +43,7 @@ ClockOf(x) == IF x.out = "ok" THEN x.rt ELSE NowAfter(ReqOf(x))
 
 \* a line whose answer nobody read, completed with the answer the specification gives
 Eff(x) == IF x.out # "lost" THEN x
+          ELSE IF ~up THEN [x EXCEPT !.out = "offline"]
           ELSE LET pt == x.post.trades
                    \* no fill left behind: id and clock stay unobserved (any admissible value)
                    f  == IF Len(pt) = Len(trades) + 1 THEN pt[Len(pt)]
@@ -49,24 +55,25 @@ Eff(x) == IF x.out # "lost" THEN x
 ResetResp == Resp([NoReq EXCEPT !.op = "Reset"], "init", "-", -1, 0)
 
 TInit == /\ l = 1 /\ bad = <<>> /\ why = <<>>
-         /\ fee = 0 /\ lat = 0 /\ bal = NoBal /\ open = {} /\ nextId = 0 /\ now = 0
+         /\ fee = 0 /\ lat = 0 /\ bal = NoBal /\ orders = {} /\ up = TRUE /\ nextId = 0 /\ now = 0
          /\ trades = <<>> /\ notif = <<>>
          /\ last = Resp(NoReq, "init", "-", -1, 0)
          /\ res = NoRes
 
 \* a fresh exchange shows exactly its configuration and an empty history
 ResetOK(x) == /\ BalOf(x.post.bal) = BalOf(x.cfg.bal)
-              /\ SetOf(x.post.open) = SetOf(x.cfg.open)
+              /\ SetOf(x.post.open) = SetOf(x.cfg.open) /\ Len(x.post.open) = Len(x.cfg.open)
               /\ Len(x.post.trades) = 0 /\ Len(x.post.notif) = 0
 
 Adopt(x) == /\ bal' = BalOf(x.post.bal)
-            /\ open' = SetOf(x.post.open)
+            /\ orders' = SetOf(x.post.open)
             /\ trades' = x.post.trades
             /\ notif' = x.post.notif
 
 TReset == /\ Rec[l].a = "Reset"
           /\ fee' = Rec[l].fee /\ lat' = Rec[l].lat
           /\ Adopt(Rec[l])
+          /\ up' = TRUE
           /\ nextId' = 0 /\ now' = 0 /\ last' = ResetResp /\ res' = NoRes
           /\ IF ResetOK(Rec[l]) THEN UNCHANGED <<bad, why>>
              ELSE /\ bad' = Append(bad, l)
@@ -80,7 +87,8 @@ Checks(x) ==
       pt  == x.post.trades
       pn  == x.post.notif
       n0  == Len(notif)
-  IN [ AcceptIff    |-> (r.op = "open") => (x.out \in {"ok", "rej"} /\ (acc <=> Accepts(r))),
+      queryOps == {"snapshot", "balances", "orders", "trades"}
+  IN [ AcceptIff    |-> (r.op = "open" /\ up) => (x.out \in {"ok", "rej"} /\ (acc <=> Accepts(r))),
        ExactDebit   |-> acc => (Listed(r) /\ pb = Debit(bal, Spent(r), Need(r))),
        \* judged on the step that breaks it (the logged state is adopted afterwards)
        NonNegative  |-> (\A a \in Assets : bal[a].free >= 0 /\ bal[a].total >= 0 /\ bal[a].total = bal[a].free)
@@ -94,29 +102,44 @@ Checks(x) ==
        NotifContent |-> (acc /\ Len(pn) = n0 + 2) =>
                              ( /\ pn[n0 + 1] = BalNotif(Spent(r), pb[Spent(r)])
                                /\ pn[n0 + 2] = FillNotif(Fill(x.id, r, x.rt)) ),
-       QueriesReflect |-> /\ (r.op # "open") <=> (x.out = "query")
-                          /\ r.op = "snapshot" => (BalOf(x.res.bal) = bal /\ SetOf(x.res.open) = open)
-                          /\ r.op = "balances" => BalOf(x.res.bal) = bal
-                          /\ r.op = "trades"   => x.res.trades = TradesSince(r.since),
-       OpenUnchanged |-> SetOf(x.post.open) = open ]
+       QueriesReflect |-> /\ (r.op \in queryOps /\ up) <=> (x.out = "query")
+                          /\ (r.op = "snapshot" /\ up) =>
+                                ( /\ BalOf(x.res.bal) = bal
+                                  /\ SetOf(x.res.open) = orders /\ Len(x.res.open) = Cardinality(orders) )
+                          /\ (r.op = "balances" /\ up) => BalOf(x.res.bal) = bal
+                          /\ (r.op = "orders" /\ up) =>
+                                ( /\ SetOf(x.res.open) = OpenOnly(orders)
+                                  /\ Len(x.res.open) = Cardinality(OpenOnly(orders)) )
+                          \* exactly the fills with time >= since, in whatever order
+                          /\ (r.op = "trades" /\ up) => SameFills(x.res.trades, TradesSince(r.since)),
+       \* the exchange task has ended <=> every call is answered "offline" (a cancel may be
+       \* answered so by a running exchange too: it does not support cancels)
+       Offline      |-> /\ (~up /\ r.op # "kill") => x.out = "offline"
+                        /\ (x.out = "offline") => (~up \/ r.op = "cancel")
+                        /\ (r.op = "cancel" /\ up) => x.out \in CancelOutcomes
+                        /\ (r.op = "kill") <=> (x.out = "killed"),
+       \* open / cancel responses carry the request's own key, side, price, quantity
+       Echo         |-> (r.op \in {"open", "cancel"}) => x.echo = 1,
+       OrdersUnchanged |-> SetOf(x.post.open) = orders ]
 
 Failing(y) == LET x == Eff(y) IN {n \in DOMAIN Checks(x) : ~Checks(x)[n]}
 StepOK(x)  == Failing(x) = {}
 
 \* what the log shows of the step, against the spec's own action
 Observed(x) == /\ bal' = BalOf(x.post.bal)
-               /\ open' = SetOf(x.post.open)
+               /\ orders' = SetOf(x.post.open)
                /\ trades' = x.post.trades
                /\ notif' = x.post.notif
                /\ last'.out = x.out
                /\ (x.out = "ok" => last'.id = x.id /\ last'.filled = x.filled)
-               /\ (x.a = "snapshot" => res'.bal = BalOf(x.res.bal) /\ res'.open = SetOf(x.res.open))
-               /\ (x.a = "balances" => res'.bal = BalOf(x.res.bal))
-               /\ (x.a = "trades"   => res'.trades = x.res.trades)
+               /\ ((x.a = "snapshot" /\ x.out = "query") => res'.bal = BalOf(x.res.bal) /\ res'.open = SetOf(x.res.open))
+               /\ ((x.a = "balances" /\ x.out = "query") => res'.bal = BalOf(x.res.bal))
+               /\ ((x.a = "orders"   /\ x.out = "query") => res'.open = SetOf(x.res.open))
+               /\ ((x.a = "trades"   /\ x.out = "query") => SameFills(res'.trades, x.res.trades))
 
 TStepOK == /\ Rec[l].a # "Reset"
            /\ StepOK(Rec[l])
-           /\ Serve(ReqOf(Rec[l]), Eff(Rec[l]).id, ClockOf(Eff(Rec[l])))   \* the spec's own action
+           /\ Serve(ReqOf(Rec[l]), Eff(Rec[l]).id, ClockOf(Eff(Rec[l])), Rec[l].out)   \* the spec's own action
            /\ Observed(Eff(Rec[l]))
            /\ UNCHANGED <<bad, why>>
 
@@ -128,6 +151,7 @@ TStepBad == /\ Rec[l].a # "Reset"
                  /\ now' = IF e.out = "ok" /\ e.rt \in ClockChoices(ReqOf(e)) THEN e.rt ELSE NowAfter(ReqOf(e))
                  /\ last' = Resp(ReqOf(e), e.out, "-", e.id, e.filled)
             /\ res' = NoRes
+            /\ up' = IF Rec[l].a = "kill" \/ (Rec[l].out = "offline" /\ Rec[l].a # "cancel") THEN FALSE ELSE up
             /\ UNCHANGED world
             /\ bad' = Append(bad, l)
             /\ why' = Append(why, [l |-> l, f |-> Failing(Rec[l])])
